@@ -84,6 +84,17 @@ class OSim(PSim):
         return super().step(time_, inputs, max_advance)
 
 
+def open_sockets():
+    """number of socket file descriptors this process holds"""
+    n = 0
+    for fd in os.listdir('/proc/self/fd'):
+        try:
+            if os.readlink(f'/proc/self/fd/{fd}').startswith('socket:'): n += 1
+        except OSError:
+            pass
+    return n
+
+
 def children():
     """live (non-zombie) and zombie child processes of this process"""
     me = os.getpid(); live, zomb = [], []
@@ -117,6 +128,7 @@ def one(topology, faulty, fkind, req, index, remote):
     errors = []
     sink_id = logger.add(lambda m: errors.append(str(m)), level='ERROR')
     before_live, before_z = children()
+    gc.collect(); sockets_before = open_sockets()
     w = mosaik.World(cfg, skip_greetings=True)
     res = dict(outcome=None)
     t0 = time.time(); t_fault = None
@@ -167,6 +179,8 @@ def one(topology, faulty, fkind, req, index, remote):
             if pid == 0: break
     except ChildProcessError:
         pass
+    gc.collect()
+    res['sockets_left_open'] = max(0, open_sockets() - sockets_before)
     res['pending_task_warnings'] = tw.n
     res['finalized'] = dict(FINALIZED)
     res['requests_after_failure'] = dict(AFTER)
@@ -190,6 +204,7 @@ def monitor(n, faulty, remote, fkind, res):
         c = res['finalized'].get(f'S{i}', 0)
         if c != 1: bad.append(f'healthy simulator S{i} was finalized {c} times')
     if res['live_children']: bad.append(f"simulator process(es) left running: {res['live_children']}")
+    if res.get('sockets_left_open'): bad.append(f"{res['sockets_left_open']} socket(s) of this run were still open after run() and shutdown")
     if res['pending_task_warnings']: bad.append(f"{res['pending_task_warnings']} event-loop task(s) were still pending when the loop was closed")
     return bad
 
